@@ -497,4 +497,362 @@ theorem parseCommand_nofields (ty key : Str) (s : St) (r : Str)
   simp [St.fresh, s2]
 
 
+/-! ### the writer's text of entries -/
+
+/-- the encoder leaves safe strings alone (latexcodec: only `# % & _ ~` are re-escaped) -/
+def EncId (encode : Str → Str) : Prop := ∀ s, Safe s = true → encode s = s
+
+theorem valW_of_ok {encode : Str → Str} (henc : EncId encode) {v : Str} (h : valueOkW v = true) :
+    ValW encode v := by
+  obtain ⟨h1, _, h3⟩ := valueOkW_iff.1 h
+  exact ⟨h1, henc v h3⟩
+
+def entryText (e : Entry) : Str :=
+  '@' :: (e.origType ++ ('{' :: (e.key ++ (fieldsText (rawFields e) ++ ['\n', '}', '\n']))))
+
+theorem writeEntry_ok {encode : Str → Str} (henc : EncId encode) {keys : List Str} {e : Entry}
+    (hg : EntryGood keys e) : writeEntry encode e = .ok (entryText e) := by
+  unfold writeEntry
+  rw [writeRoles_ok e.persons (fun r hr => ⟨(hg.roles r hr).ne, valW_of_ok henc (hg.roles r hr).value⟩),
+    writeFields_ok e.fields (fun f hf => valW_of_ok henc (hg.fields f hf).value)]
+  simp only [entryText, rawFields, fieldsText_append]
+  have : "\n}\n".toList = ['\n', '}', '\n'] := by decide
+  rw [this]
+  simp only [List.cons_append, List.append_assoc]
+
+def entriesText : Bool → List Entry → Str
+  | _, [] => []
+  | first, e :: es => (if first then [] else ['\n']) ++ (entryText e ++ entriesText false es)
+
+theorem writeEntries_ok {encode : Str → Str} (henc : EncId encode) : ∀ (es : List Entry) (first : Bool) (keys : List Str),
+    entriesOkW keys es = true → writeEntries encode first es = .ok (entriesText first es) := by
+  intro es
+  induction es with
+  | nil => intro _ _ _; rfl
+  | cons e es ih =>
+    intro first keys h
+    simp only [entriesOkW, Bool.and_eq_true] at h
+    simp only [writeEntries, writeEntry_ok henc (entryGood_of_ok h.1), ih false _ h.2, entriesText,
+      List.append_assoc]
+
+/-! ### what one entry denotes -/
+
+theorem entry_denote {keys : List Str} {e : Entry} (hg : EntryGood keys e) (m : Macros) :
+    denoteEntry m e.origType e.key (docOfRaw (rawFields e)) = e := by
+  unfold denoteEntry rawFields
+  have hr : ∀ r ∈ e.persons, isPersonField r.1 = true ∧ normalizeWs (formatNames r.2) = formatNames r.2 ∧
+      personsOf (formatNames r.2) = r.2 ∧ r.2 ≠ [] := by
+    intro r hr
+    have g := hg.roles r hr
+    exact ⟨g.role, (valueOkW_iff.1 g.value).2.1, (names_read_back r.2 g.ne g.persons).1, g.ne⟩
+  have hf : ∀ f ∈ e.fields, isPersonField f.1 = false ∧ normalizeWs f.2 = f.2 := by
+    intro f hf
+    have g := hg.fields f hf
+    exact ⟨g.plain, (valueOkW_iff.1 g.value).2.1⟩
+  have hdoc : docOfRaw (rolesRaw e.persons ++ e.fields) = docOfRaw (rolesRaw e.persons) ++ docOfRaw e.fields := by
+    simp [docOfRaw]
+  rw [hdoc, List.foldl_append, denote_roles m e.persons _ hr, denote_fields m e.fields _ hf]
+  obtain ⟨k, t, ot, fs, ps⟩ := e
+  have := hg.lowType
+  simp only at this
+  subst this
+  simp
+
+theorem rawGood_of_entry {keys : List Str} {e : Entry} (hg : EntryGood keys e) : ∀ f ∈ rawFields e, RawGood f := by
+  intro f hf
+  simp only [rawFields, List.mem_append, rolesRaw, List.mem_map] at hf
+  rcases hf with ⟨r, hr, rfl⟩ | hf
+  · have g := hg.roles r hr
+    obtain ⟨h1, h2, _⟩ := valueOkW_iff.1 g.value
+    exact ⟨g.name, h1, h2, fun _ => (names_read_back r.2 g.ne g.persons).2⟩
+  · have g := hg.fields f hf
+    obtain ⟨h1, h2, _⟩ := valueOkW_iff.1 g.value
+    exact ⟨g.name, h1, h2, fun hp => by rw [g.plain] at hp; cases hp⟩
+
+/-- the layout the writer uses for an entry that has fields -/
+def entryLayout (e : Entry) : CmdLayout := { fields := layoutsOf (rawFields e), afterClose := ['\n'] }
+
+theorem entryText_render {e : Entry} (hne : rawFields e ≠ []) :
+    entryText e = renderCmd (.entry e.origType e.key (docOfRaw (rawFields e))) (entryLayout e) := by
+  have hdne : docOfRaw (rawFields e) ≠ [] := by simpa [docOfRaw] using hne
+  have hemp : (docOfRaw (rawFields e)).isEmpty = false := by
+    cases h : docOfRaw (rawFields e) with
+    | nil => exact absurd h hdne
+    | cons a b => rfl
+  simp only [renderCmd, entryLayout, applyMask_nil, List.nil_append, opener, closer, Bool.false_eq_true,
+    if_false, hemp, Bool.or_self, renderFields_raw _ hne, entryText, List.append_nil, List.append_assoc,
+    List.cons_append]
+
+theorem cmdOk_entry {keys : List Str} {e : Entry} (hg : EntryGood keys e) (m : Macros) :
+    cmdOk m keys (.entry e.origType e.key (docOfRaw (rawFields e))) (entryLayout e) = true := by
+  have hf := fieldsOk_raw m (rawFields e) [] (rawGood_of_entry hg) hg.distinct
+  simp only [cmdOk, entryLayout, hg.ty, hg.notReserved, hg.key, hg.fresh, hf, Bool.not_false, Bool.and_true]
+  decide
+
+
+/-! ### the reader on the writer's entries -/
+
+theorem entryText_length_pos (e : Entry) : 0 < (entryText e).length := by simp [entryText]
+
+theorem plain_layouts : ∀ (raw : List (Str × Str)), plainFieldIds (docOfRaw raw) (layoutsOf raw) = true := by
+  intro raw
+  induction raw with
+  | nil => rfl
+  | cons f raw ih =>
+    cases raw with
+    | nil => simp [docOfRaw, layoutsOf, plainFieldIds, fieldLayoutOf]
+    | cons g r =>
+      show plainFieldIds ((f.1, [Piece.lit f.2]) :: docOfRaw (g :: r)) (fieldLayoutOf f.2 false :: layoutsOf (g :: r)) = true
+      rw [plainFieldIds]
+      simp only [List.headD_cons, List.tail_cons, fieldLayoutOf, ih, Bool.and_true, decide_true]
+
+theorem parseLoop_entries : ∀ (es : List Entry) (first : Bool) (fuel : Nat) (s : St) (pre : Str) (D : Denot)
+    (keys : List Str),
+    s.rest = pre ++ entriesText first es → (∀ c ∈ pre, c ≠ '@') → entriesOkW keys es = true →
+    LoopInv s initMacros D keys → (entriesText first es).length < fuel →
+    ∃ s' keys', parseLoop fuel s = (s', none) ∧
+      LoopInv s' initMacros { D with entries := D.entries ++ es } keys' := by
+  intro es
+  induction es with
+  | nil =>
+    intro first fuel s pre D keys h hpre _ hinv hfuel
+    obtain ⟨fuel, rfl⟩ : ∃ k, fuel = k + 1 := ⟨fuel - 1, by omega⟩
+    simp only [entriesText, List.append_nil] at h
+    refine ⟨s, keys, ?_, ?_⟩
+    · rw [parseLoop_unfold, h, skipToChar_none (AtFree.skip hpre)]
+    · simpa using hinv
+  | cons e es ih =>
+    intro first fuel s pre D keys h hpre hok hinv hfuel
+    simp only [entriesOkW, Bool.and_eq_true] at hok
+    obtain ⟨hok1, hok2⟩ := hok
+    have hg := entryGood_of_ok hok1
+    obtain ⟨fuel, rfl⟩ : ∃ k, fuel = k + 1 := ⟨fuel - 1, by omega⟩
+    -- the text in front of the `@`
+    let pre' : Str := pre ++ (if first then [] else ['\n'])
+    have hpre' : ∀ c ∈ pre', c ≠ '@' := by
+      intro c hc
+      simp only [pre', List.mem_append] at hc
+      rcases hc with hc | hc
+      · exact hpre c hc
+      · split at hc
+        · simp at hc
+        · simp at hc; subst hc; decide
+    obtain ⟨T, hT⟩ : ∃ T, entryText e = '@' :: T := ⟨_, rfl⟩
+    have hrest : s.rest = pre' ++ '@' :: (T ++ entriesText false es) := by
+      rw [h]; simp only [entriesText, pre', hT, List.append_assoc, List.cons_append]
+    rw [parseLoop_at fuel s pre' _ hrest hpre']
+    have hany : D.entries.any (fun x => lower x.key = lower e.key) = false := by
+      rw [List.any_eq_false]
+      intro x hx hek
+      have := hinv.keys x hx
+      simp only [decide_eq_true_eq] at hek
+      rw [hek] at this
+      have hf := hg.fresh
+      simp only [List.contains_eq_mem, decide_eq_false_iff_not] at hf
+      exact hf this
+    have hlen : (entriesText false es).length < fuel := by
+      have h1 := entryText_length_pos e
+      simp only [entriesText, List.length_append] at hfuel
+      omega
+    have hkeys' : ∀ x ∈ D.entries ++ [e], lower x.key ∈ lower e.key :: keys := by
+      intro x hx
+      rcases List.mem_append.1 hx with hx | hx
+      · exact List.mem_cons_of_mem _ (hinv.keys x hx)
+      · simp only [List.mem_singleton] at hx; rw [hx]; exact List.mem_cons_self
+    by_cases hraw : rawFields e = []
+    · -- no field, no person
+      have hT' : T = e.origType ++ ('{' :: (e.key ++ ('\n' :: '}' :: ['\n']))) := by
+        have := hT
+        simp only [entryText, hraw, fieldsText, List.map_nil, List.flatten_nil, List.nil_append, List.cons.injEq, true_and] at this
+        exact this.symm
+      obtain ⟨ln1, fn, cv, h1⟩ := parseCommand_nofields e.origType e.key
+        { s with rest := T ++ entriesText false es, ln := s.ln + countNl (pre' ++ ['@']) }
+        ('\n' :: entriesText false es) (by simp [hT']) hg.ty hg.notReserved hg.key hinv.proc.wanted
+      rw [h1]
+      let s0 : St :=
+        { s with rest := '\n' :: entriesText false es, ln := ln1, curKey := some e.key, curFields := [],
+                 curFieldName := fn, curValue := cv }
+      have hproc := processCmd_entry initMacros e.origType e.key [] s0
+        ⟨hinv.proc.wanted, hinv.proc.cit, hinv.proc.roles⟩ (by rw [← hany, ← hinv.entries]) rfl
+      have hproc' : processCmd (Cmd.entry e.origType (some e.key) []) s0 = _ := hproc
+      have hden : denoteEntry initMacros e.origType e.key [] = e := by
+        have := entry_denote hg initMacros
+        rw [hraw] at this
+        exact this
+      rw [hden] at hproc'
+      obtain ⟨s', keys', h2, h3⟩ := ih false fuel { s0 with db := { s0.db with entries := s0.db.entries ++ [e] } }
+        ['\n'] { D with entries := D.entries ++ [e] } (lower e.key :: keys) rfl
+        (by intro c hc; simp at hc; subst hc; decide) hok2
+        ⟨hinv.mac, ⟨hinv.proc.wanted, hinv.proc.cit, hinv.proc.roles⟩, by simp [s0, hinv.entries], hinv.preamble, hinv.errs, hkeys'⟩
+        hlen
+      refine ⟨s', keys', ?_, by simpa using h3⟩
+      show (match processCmd (Cmd.entry e.origType (some e.key) []) s0 with
+        | .ok _ s => parseLoop fuel s
+        | .fail (.raised e) s => (s, some e)
+        | .fail (.syn e) s => (s, some e)
+        | .fail .skip s => parseLoop fuel s) = _
+      rw [hproc']
+      exact h2
+    · -- a rendered entry of C01
+      have hrender := entryText_render hraw
+      obtain ⟨ln1, fn, cv, h1⟩ := parseCommand_entry initMacros keys e.origType e.key (docOfRaw (rawFields e))
+        (entryLayout e)
+        { s with rest := T ++ entriesText false es, ln := s.ln + countNl (pre' ++ ['@']) } (entriesText false es)
+        (by rw [← hrender, hT]; rfl) (cmdOk_entry hg initMacros) hinv.mac hinv.proc.wanted
+      rw [h1]
+      have hwf : writtenFields (docOfRaw (rawFields e)) (entryLayout e).fields = docOfRaw (rawFields e) :=
+        writtenFields_plain _ _ (plain_layouts (rawFields e))
+      have hfok := fieldsOk_raw initMacros (rawFields e) [] (rawGood_of_entry hg) hg.distinct
+      let s0 : St :=
+        { s with rest := (entryLayout e).afterClose ++ entriesText false es, ln := ln1, curKey := some e.key,
+                 curFields := parsedFields initMacros (docOfRaw (rawFields e)) (entryLayout e).fields,
+                 curFieldName := fn, curValue := cv }
+      have hproc := processCmd_entry initMacros (applyMask e.origType (entryLayout e).mask) e.key
+        (writtenFields (docOfRaw (rawFields e)) (entryLayout e).fields) s0
+        ⟨hinv.proc.wanted, hinv.proc.cit, hinv.proc.roles⟩ (by rw [← hany, ← hinv.entries])
+        (procOk_of_fieldsOk initMacros _ _ _ hfok)
+      have hproc' : processCmd (Cmd.entry (applyMask e.origType (entryLayout e).mask) (some e.key)
+          (parsedFields initMacros (docOfRaw (rawFields e)) (entryLayout e).fields)) s0 = _ := hproc
+      have hden : denoteEntry initMacros (applyMask e.origType (entryLayout e).mask) e.key
+          (writtenFields (docOfRaw (rawFields e)) (entryLayout e).fields) = e := by
+        rw [hwf]
+        simp only [entryLayout, applyMask_nil]
+        exact entry_denote hg initMacros
+      rw [hden] at hproc'
+      obtain ⟨s', keys', h2, h3⟩ := ih false fuel { s0 with db := { s0.db with entries := s0.db.entries ++ [e] } }
+        (entryLayout e).afterClose { D with entries := D.entries ++ [e] }
+        (lower e.key :: keys) rfl
+        (by intro c hc; simp [entryLayout] at hc; subst hc; decide) hok2
+        ⟨hinv.mac, ⟨hinv.proc.wanted, hinv.proc.cit, hinv.proc.roles⟩, by simp [s0, hinv.entries], hinv.preamble, hinv.errs, hkeys'⟩
+        hlen
+      refine ⟨s', keys', ?_, by simpa using h3⟩
+      show (match processCmd (Cmd.entry (applyMask e.origType (entryLayout e).mask) (some e.key)
+          (parsedFields initMacros (docOfRaw (rawFields e)) (entryLayout e).fields)) s0 with
+        | .ok _ s => parseLoop fuel s
+        | .fail (.raised e) s => (s, some e)
+        | .fail (.syn e) s => (s, some e)
+        | .fail .skip s => parseLoop fuel s) = _
+      rw [hproc']
+      exact h2
+
+
+/-! ### the whole database -/
+
+theorem splitChar_none {x : Char} : ∀ (s : Str), (∀ c ∈ s, c ≠ x) → splitChar x s = [s] := by
+  intro s
+  induction s with
+  | nil => intro _; rfl
+  | cons c r ih =>
+    intro h
+    have hc := h c (by simp)
+    simp only [splitChar, if_neg hc, ih (fun y hy => h y (by simp [hy]))]
+
+theorem safe_no_percent {s : Str} (h : Safe s = true) : ∀ c ∈ s, c ≠ '%' := by
+  intro c hc hp
+  subst hp
+  simp only [Safe, List.all_eq_true] at h
+  have := h '%' hc
+  simp [isFive] at this
+
+theorem encodeWithComments_safe {encode : Str → Str} (henc : EncId encode) {s : Str} (h : Safe s = true) :
+    encodeWithComments encode s = s := by
+  unfold encodeWithComments
+  rw [splitChar_none s (safe_no_percent h)]
+  simp [joinWith, henc s h]
+
+def preambleLayout (text : Str) : CmdLayout :=
+  { pieces := [{ spelling := spellOf text }], afterClose := ['\n', '\n'] }
+
+/-- the text of `_write_preamble` -/
+def preambleOut (d : BibData) : Str :=
+  if d.preambleText = [] then []
+  else renderCmd (.preamble [Piece.lit d.preambleText]) (preambleLayout d.preambleText)
+
+theorem writePreamble_ok {encode : Str → Str} (henc : EncId encode) {d : BibData}
+    (h : d.preambleText = [] ∨ valueOkW d.preambleText = true) :
+    writePreamble encode d.preambleText = .ok (preambleOut d) := by
+  unfold writePreamble preambleOut
+  by_cases hp : d.preambleText = []
+  · simp [hp]
+  · rcases h with h | h
+    · exact absurd h hp
+    · obtain ⟨h1, _, h3⟩ := valueOkW_iff.1 h
+      rw [if_neg hp, if_neg hp, encodeWithComments_safe henc h3, quote_ok h1]
+      have e1 : "@preamble{".toList = '@' :: ("preamble".toList ++ ['{']) := by decide
+      have e2 : "}\n\n".toList = ['}', '\n', '\n'] := by decide
+      rw [e1, e2]
+      simp only [renderCmd, preambleLayout, kw, applyMask_nil, renderValue, renderMore, List.headD_cons,
+        opener, closer, Bool.false_eq_true, if_false, List.nil_append, List.append_nil, List.cons_append,
+        List.append_assoc]
+
+theorem writeStream_ok {encode : Str → Str} (henc : EncId encode) {d : BibData} (h : WFDb d = true) :
+    writeStream encode d = .ok (preambleOut d ++ entriesText true d.entries) := by
+  simp only [WFDb, Bool.and_eq_true, Bool.or_eq_true, decide_eq_true_eq] at h
+  unfold writeStream
+  rw [writePreamble_ok henc h.2, writeEntries_ok henc d.entries true [] h.1]
+
+theorem loopInv_init (text : Str) (strict : Bool) :
+    LoopInv { rest := text, macros := CIDict.ofPairs Gen.monthMacros, db := {}, strict := strict,
+              roles := Gen.personRoles } initMacros {} [] :=
+  ⟨macRef_init, ⟨rfl, rfl, rfl⟩, rfl, rfl, rfl, by simp⟩
+
+theorem parseBib_written {encode : Str → Str} (henc : EncId encode) (d : BibData) (h : WFDb d = true)
+    (strict : Bool) :
+    ∃ text s', writeStream encode d = .ok text ∧ parseBib text strict none = (s', none) ∧
+      s'.errs = [] ∧ s'.db.entries = d.entries ∧ s'.db.preamble = canonPreamble d := by
+  refine ⟨preambleOut d ++ entriesText true d.entries, ?_⟩
+  have hw := writeStream_ok henc h
+  simp only [WFDb, Bool.and_eq_true, Bool.or_eq_true, decide_eq_true_eq] at h
+  obtain ⟨hes, hpre⟩ := h
+  by_cases hp : d.preambleText = []
+  · -- no preamble
+    have hout : preambleOut d = [] := by simp [preambleOut, hp]
+    obtain ⟨s', keys', h1, h2⟩ := parseLoop_entries d.entries true ((entriesText true d.entries).length + 1)
+      { rest := entriesText true d.entries, macros := CIDict.ofPairs Gen.monthMacros, db := {}, strict := strict,
+        roles := Gen.personRoles } [] {} [] rfl (by simp) hes (loopInv_init _ strict) (by omega)
+    refine ⟨s', hw, ?_, h2.errs, ?_, ?_⟩
+    · rw [hout]; exact h1
+    · rw [h2.entries]; simp
+    · rw [h2.preamble]; simp [canonPreamble, hp]
+  · -- `@preamble{…}` first
+    have hv : valueOkW d.preambleText = true := by
+      rcases hpre with h0 | h0
+      · exact absurd h0 hp
+      · exact h0
+    obtain ⟨hv1, hv2, _⟩ := valueOkW_iff.1 hv
+    have hout : preambleOut d = renderCmd (.preamble [Piece.lit d.preambleText]) (preambleLayout d.preambleText) := by
+      simp [preambleOut, hp]
+    obtain ⟨T, hT⟩ : ∃ T, renderCmd (.preamble [Piece.lit d.preambleText]) (preambleLayout d.preambleText) = '@' :: T :=
+      ⟨_, rfl⟩
+    have hcmd : cmdOk initMacros [] (.preamble [Piece.lit d.preambleText]) (preambleLayout d.preambleText) = true := by
+      simp only [cmdOk, preambleLayout, valueOk, moreOk, List.headD_cons, pieceOk_spell initMacros hv1,
+        Bool.and_true, Bool.true_and]
+      decide
+    let s0 : St := { rest := T ++ entriesText true d.entries, macros := CIDict.ofPairs Gen.monthMacros, db := {},
+                     strict := strict, roles := Gen.personRoles }
+    have hinv0 : LoopInv s0 initMacros {} [] := loopInv_init _ strict
+    obtain ⟨ln1, h1⟩ := parseCommand_preamble initMacros [] [Piece.lit d.preambleText] (preambleLayout d.preambleText)
+      { s0 with ln := s0.ln + countNl ([] ++ ['@']) } (entriesText true d.entries) (by rw [hT]; rfl) hcmd hinv0.mac
+    let s1 : St :=
+      { s0 with rest := (preambleLayout d.preambleText).afterClose ++ entriesText true d.entries, ln := ln1,
+                curKey := none, curFields := [], curFieldName := none,
+                curValue := expandPieces initMacros [Piece.lit d.preambleText],
+                db := { s0.db with preamble := s0.db.preamble ++ [normalizeWs (expand initMacros [Piece.lit d.preambleText])] } }
+    obtain ⟨s', keys', h2, h3⟩ := parseLoop_entries d.entries true ((T ++ entriesText true d.entries).length + 1) s1
+      (preambleLayout d.preambleText).afterClose { preamble := [d.preambleText] } [] rfl
+      (by intro c hc; simp [preambleLayout] at hc; subst hc; decide) hes
+      ⟨hinv0.mac, ⟨rfl, rfl, rfl⟩, rfl, by simp [s1, s0, expand_lit, hv2], rfl, by simp⟩
+      (by simp only [List.length_append]; omega)
+    refine ⟨s', hw, ?_, h3.errs, ?_, ?_⟩
+    · rw [hout, hT]
+      unfold parseBib
+      simp only [List.cons_append, List.length_cons]
+      rw [parseLoop_at _ _ [] _ (by rfl) (by simp)]
+      rw [h1]
+      simp only [processCmd_preamble]
+      exact h2
+    · rw [h3.entries]; simp
+    · rw [h3.preamble]; simp [canonPreamble, hp]
+
+
 end Pybtex.C02
